@@ -27,6 +27,16 @@ use crate::error::Error;
 use super::{ExprType, FlagsState, GeneratorState};
 
 impl<'a, 'b> GeneratorState<'a> {
+    // An alternative of ?: that borrows Y gives it back on its own path
+    fn restore_y_borrowed_by_alternative(&mut self, saved_before: bool) {
+        if self.saved_y && !saved_before {
+            self.asm_restore_y();
+            self.saved_y = false;
+            self.tmp_in_use = false;
+            self.flags = FlagsState::Unknown;
+        }
+    }
+
     pub(crate) fn generate_ternary(
         &mut self,
         condition: &Expr,
@@ -49,13 +59,16 @@ impl<'a, 'b> GeneratorState<'a> {
                         let ifend_label = format!(".ifend{}", self.local_label_counter_if);
                         let else_label = format!(".else{}", self.local_label_counter_if);
                         self.generate_condition(condition, pos, true, &else_label, false)?;
+                        let saved_y = self.saved_y;
                         let left = self.generate_expr(lhs, pos, false, false)?;
                         let la = self.generate_assign(&ExprType::A(false), &left, pos, false)?;
+                        self.restore_y_borrowed_by_alternative(saved_y);
                         self.asm(JMP, &ExprType::Label(ifend_label.clone()), pos, false)?;
                         self.label(&else_label)?;
                         self.acc_in_use = false;
                         let right = self.generate_expr(rhs, pos, false, false)?;
                         let ra = self.generate_assign(&ExprType::A(false), &right, pos, false)?;
+                        self.restore_y_borrowed_by_alternative(saved_y);
                         self.label(&ifend_label)?;
                         self.asm(STA, &ExprType::Tmp(false), pos, false)?;
                         self.tmp_in_use = true;
@@ -81,15 +94,18 @@ impl<'a, 'b> GeneratorState<'a> {
                                 return Ok(self.generate_expr(lhs, pos, false, false)?);
                             }
                         } else {
+                            let saved_y = self.saved_y;
                             let left = self.generate_expr(lhs, pos, false, false)?;
                             let la =
                                 self.generate_assign(&ExprType::A(false), &left, pos, false)?;
+                            self.restore_y_borrowed_by_alternative(saved_y);
                             self.asm(JMP, &ExprType::Label(ifend_label.clone()), pos, false)?;
                             self.label(&else_label)?;
                             self.acc_in_use = false;
                             let right = self.generate_expr(rhs, pos, false, false)?;
                             let ra =
                                 self.generate_assign(&ExprType::A(false), &right, pos, false)?;
+                            self.restore_y_borrowed_by_alternative(saved_y);
                             self.label(&ifend_label)?;
                             self.acc_in_use = true;
                             if la != ra {
